@@ -416,6 +416,32 @@ def pred_box(lo, hi, x) -> tuple[str, str] | None:
     return None
 
 
+def pred_box_float32(lo, hi, x) -> tuple[str, str] | None:
+    """a position held in single precision (np.float32 arrays come out of many pipelines): clipping and a random
+    displacement still end inside the box — judged by exact comparison of the resulting numbers with the bounds"""
+    from topsearch.global_optimisation.perturbations import StandardPerturbation
+    c = std_coords(lo, hi, x)
+    c.position = np.array(x, dtype=np.float32)
+    x32 = [float(v) for v in c.position]
+    c.move_to_bounds()
+    got = [float(v) for v in c.position]
+    for i, (g, l, h, xi) in enumerate(zip(got, lo, hi, x32)):
+        if not l <= g <= h:
+            return ("move_to_bounds:outside:float32-position", f"coordinate {i}: move_to_bounds took {xi!r} (a float32 "
+                    f"position) to {g!r}, outside [{l}, {h}]")
+        if g != min(max(xi, l), h):
+            return ("move_to_bounds:not-the-clip:float32-position", f"coordinate {i}: {xi!r} -> {g!r}, direct clipping "
+                    f"gives {min(max(xi, l), h)!r}")
+    c.position = np.array(x, dtype=np.float32)
+    with patched(np.random, "rand", lambda *shape: np.full(shape, 1 - 2.0 ** -53)):
+        StandardPerturbation(1.0, True).perturb(c)
+    for i, (g, l, h) in enumerate(zip([float(v) for v in c.position], lo, hi)):
+        if not l <= g <= h:
+            return ("StandardPerturbation:outside-box:float32-position", f"coordinate {i}: a displaced float32 position "
+                    f"ends at {g!r}, outside [{l}, {h}]")
+    return None
+
+
 def pred_random_point(lo, hi, seed: int) -> tuple[str, str] | None:
     st = np.random.get_state()
     np.random.seed(seed)
@@ -633,6 +659,17 @@ def predicates(ctx: Ctx) -> None:
         ctx.stats.case({"stream": "predicate-box", "x": x, "lo": lo, "hi": hi}, True)
         if r:
             ctx.fail(r[0], r[1], {"kind": "box", "lo": lo, "hi": hi, "x": x})
+    for i in range(ctx.scale(60, 400) * deep):
+        d = rng.randint(1, 4)
+        # bounds that single precision cannot represent (0.1, -1.1, 1/3): the clipped value must not be rounded outward
+        lo = [rng.choice([-1.1, -0.3, 0.1, -1.0 / 3.0, -2.7]) for _ in range(d)]
+        hi = [l + rng.choice([0.2, 1.3, 0.7, 2.0 / 3.0]) for l in lo]
+        x = [rng.choice([l - 0.5, h + 0.5, l, h, 0.5 * (l + h), h - 1e-9, l + 1e-9]) for l, h in zip(lo, hi)]
+        r = pred_box_float32(lo, hi, x)
+        ctx.stats.case({"stream": "predicate-box-float32", "x": x, "lo": lo, "hi": hi}, True)
+        if r:
+            ctx.fail(r[0], r[1], {"kind": "box32", "lo": lo, "hi": hi, "x": x})
+            break
     for i in range(ctx.scale(20, 100)):
         d = rng.randint(1, 5)
         lo, hi = random_box(rng, d)
@@ -761,6 +798,8 @@ def replay(ctx: Ctx, data: dict) -> bool:
         r = pred_atomic(data["n"], data["k"], data["m"], data["pos"], data["seed"])
     elif k == "move":
         r = pred_move(data["molecule"], data["move"], data["atoms"], data["amount"])
+    elif k == "box32":
+        r = pred_box_float32(data["lo"], data["hi"], data["x"])
     elif k == "std-reused":
         r = pred_std_reused([tuple(c) for c in data["calls"]])
     elif k == "sequence":
